@@ -390,7 +390,7 @@ def real_runs(ctx, coq=True):
                         ctx.violation(NEAR_ZERO_KEY, f"{rd['title']}: {f['what']}",
                                       {"kind": "counterexample", "spec": whole, "round": rd["title"], "failure": f})
                     continue
-                ctx.violation(f"C04:{f['kind']}@{key_site(f['kind'])}", f"{rd['title']} ({rd['ty']}): {f['what']}",
+                ctx.violation(f"C04:{f['kind']}@{f.get('site') or key_site(f['kind'])}", f"{rd['title']} ({rd['ty']}): {f['what']}",
                               {"kind": "counterexample", "spec": whole, "round": rd["title"],
                                "run_in_chain": rd.get("chain_pos", 0), "failure": f})
             if "data" in rd and coq:
